@@ -39,7 +39,7 @@ MemberE(obj, name) == RN("MemberExpression", "", "", <<obj, NameId(name)>>)
 CallE(callee, args) == RN("CallExpression", "", "", <<callee, L(args)>>)
 HookCall(name, wrapped, args) == CallE(MemberE(Id("_ddiast"), name), <<Arg(wrapped, FALSE)>> \o args)
 
-St0 == [ctr |-> 0, idents |-> <<>>, rp |-> FALSE]
+St0 == [ctr |-> 0, idents |-> <<>>, rp |-> FALSE, ev |-> <<>>]     \* ev: traversal events, as the cfg-guarded hooks record them
 G0 == [status |-> "nm", cnt |-> 0, dbg |-> <<>>]
 
 LitCallers == {"concat", "replace", "replaceAll", "padEnd", "padStart", "repeat"}
@@ -70,7 +70,8 @@ HoistTemporal(e, spread, st, cfg) ==
            rhs == IF spread THEN RN("ArrayExpression", "", "", <<L(<<Arg(e, TRUE)>>)>>)
                   ELSE IF e.t = "SequenceExpression" THEN Paren(e) ELSE e
        IN [e |-> t, assign |-> <<AssignE(t, rhs)>>,
-           st |-> Register([st EXCEPT !.ctr = n + 1], TempName(cfg, n)), hoisted |-> TRUE]
+           st |-> Register([st EXCEPT !.ctr = n + 1, !.ev = Append(@, <<"next_ident", n, 0, "">>)], TempName(cfg, n)),
+           hoisted |-> TRUE]
 
 (* get_ident_used_in_assignation: hoist and hand the result to the hook *)
 Hoist(e, spread, st, cfg) ==
@@ -271,7 +272,9 @@ ToDdOptChain(n, st, cfg) ==
 (* -> [n, S]                                                                                     *)
 RECURSIVE Visit(_, _, _, _), VisitKids(_, _, _, _), VisitSeq(_, _, _, _, _, _)
 
-LeavePush(S, root) == IF root THEN [S EXCEPT !.st.ctr = 0] ELSE S
+LeavePush(S, root) == IF root THEN [S EXCEPT !.st.ctr = 0, !.st.ev = Append(@, <<"reset_counter", S.st.ctr, 0, "">>)] ELSE S
+(* update_status(status, tag) is entered: <<"update_status", modified?, count before, tag>> *)
+Status(st, g, mod, tag) == [st EXCEPT !.ev = Append(@, <<"update_status", IF mod THEN 1 ELSE 0, g.cnt, tag>>)]
 
 VisitSeq(kids, i, root, S, cfg, acc) ==
   IF i > Len(kids) THEN [kids |-> acc, S |-> S]
@@ -287,7 +290,7 @@ Visit(n, root, S, cfg) ==
          LET k == VisitKids(n, FALSE, S, cfg) IN
          IF n.v = "+"
          THEN LET r == ToDdBinary(k.n, k.S.st, cfg) IN
-              [n |-> r.e, S |-> LeavePush([st |-> r.st, g |-> IF r.mod THEN Bump(k.S.g, cfg, "+") ELSE k.S.g], root)]
+              [n |-> r.e, S |-> LeavePush([st |-> Status(r.st, k.S.g, r.mod, "+"), g |-> IF r.mod THEN Bump(k.S.g, cfg, "+") ELSE k.S.g], root)]
          ELSE [n |-> k.n, S |-> LeavePush(k.S, root)]
     [] n.t = "AssignmentExpression" /\ cfg.plus # "" ->
          LET k == VisitKids(n, FALSE, S, cfg) IN
@@ -296,8 +299,8 @@ Visit(n, root, S, cfg) ==
                   r == ToDdBinary(RN("BinaryExpression", "+", "", <<k.n.c[1], right>>), k.S.st, cfg)
               IN IF r.mod
                  THEN [n |-> RN("AssignmentExpression", "=", "", <<k.n.c[1], r.e>>),
-                       S |-> LeavePush([st |-> r.st, g |-> Bump(k.S.g, cfg, "+=")], root)]
-                 ELSE [n |-> k.n, S |-> LeavePush([st |-> r.st, g |-> k.S.g], root)]
+                       S |-> LeavePush([st |-> Status(r.st, k.S.g, TRUE, "+="), g |-> Bump(k.S.g, cfg, "+=")], root)]
+                 ELSE [n |-> k.n, S |-> LeavePush([st |-> Status(r.st, k.S.g, FALSE, "+="), g |-> k.S.g], root)]
          ELSE [n |-> k.n, S |-> LeavePush(k.S, root)]
     [] n.t = "TemplateLiteral" /\ cfg.tpl # "" ->
          IF Len(n.c[1].c) >= 1 /\ \A i \in 1..Len(n.c[1].c) : ~IsLit(n.c[1].c[i])
@@ -305,13 +308,14 @@ Visit(n, root, S, cfg) ==
                   ca == CallArgs([i \in 1..Len(k.n.c[1].c) |-> Arg(k.n.c[1].c[i], FALSE)], 1, FALSE, k.S.st, cfg, NoAcc)
                   tpl == [k.n EXCEPT !.c = <<L([i \in 1..Len(ca.args) |-> ca.args[i].c[1]]), k.n.c[2]>>]
               IN [n |-> DdParen(tpl, ca.hook, ca.assign, cfg.tpl),
-                  S |-> LeavePush([st |-> ca.st, g |-> Bump(k.S.g, cfg, "Tpl")], root)]
+                  S |-> LeavePush([st |-> Status(ca.st, k.S.g, TRUE, "Tpl"), g |-> Bump(k.S.g, cfg, "Tpl")], root)]
          ELSE [n |-> n, S |-> S]               \* not instrumentable: not even traversed
     [] n.t = "CallExpression" ->
          LET k == VisitKids(n, FALSE, S, cfg) IN
          IF k.n.c[1].t \in {"Super", "Import"} THEN [n |-> k.n, S |-> LeavePush(k.S, root)]
          ELSE LET r == ToDdCall(k.n, k.S.st, cfg) IN
-              [n |-> r.e, S |-> LeavePush([st |-> r.st, g |-> IF r.mod THEN Bump(k.S.g, cfg, r.tag) ELSE k.S.g], root)]
+              [n |-> r.e, S |-> LeavePush([st |-> IF r.mod THEN Status(r.st, k.S.g, TRUE, r.tag) ELSE r.st,
+                                           g |-> IF r.mod THEN Bump(k.S.g, cfg, r.tag) ELSE k.S.g], root)]
     [] n.t = "OptionalChainingExpression" ->
          LET r == ToDdOptChain(n, S.st, cfg)
              S1 == [st |-> r.st, g |-> IF r.mod THEN MarkModified(S.g) ELSE S.g]
@@ -354,25 +358,30 @@ BlockPassSeq(kids, i, G, cfg, acc) ==
 BlockPass(n, G, cfg) ==
   IF G.cancelled THEN [n |-> n, G |-> G]
   ELSE IF n.t = "BlockStatement" THEN
-    LET v == VisitSeq(n.c[1].c, 1, TRUE, [st |-> St0, g |-> G.g], cfg, <<>>) IN
-    IF v.S.st.rp THEN [n |-> n, G |-> [g |-> v.S.g, cancelled |-> TRUE]]
+    LET v == VisitSeq(n.c[1].c, 1, TRUE, [st |-> St0, g |-> G.g], cfg, <<>>)
+        evs == G.ev \o << <<"block_enter", Len(n.c[1].c), 0, "">> >> \o v.S.st.ev
+    IN
+    IF v.S.st.rp THEN [n |-> n, G |-> [g |-> v.S.g, cancelled |-> TRUE,
+                                       ev |-> Append(evs, <<"block_cancel", Len(v.S.st.idents), 0, "">>)]]
     ELSE LET stmts == IF v.S.st.idents = <<>> THEN v.kids
                       ELSE InsertAt(v.kids, DirectivePrefixLen(v.kids), LetDecl(cfg, v.S.st.idents))
-             inner == BlockPassSeq(stmts, 1, [g |-> v.S.g, cancelled |-> FALSE], cfg, <<>>)
+             inner == BlockPassSeq(stmts, 1, [g |-> v.S.g, cancelled |-> FALSE,
+                                              ev |-> Append(evs, <<"block_leave", Len(v.S.st.idents), 0, "">>)], cfg, <<>>)
          IN [n |-> [n EXCEPT !.c = <<[n.c[1] EXCEPT !.c = inner.kids]>>], G |-> inner.G]
   ELSE LET r == BlockPassSeq(n.c, 1, G, cfg, <<>>) IN [n |-> [n EXCEPT !.c = r.kids], G |-> r.G]
 
 PrologueMarker == RN("_Prologue", "", "", <<>>)
 
 Rewrite(prog, cfg) ==
-  LET r == BlockPass(prog, [g |-> G0, cancelled |-> FALSE], cfg) IN
-  IF r.G.cancelled THEN [outcome |-> "cancelled", out |-> prog, status |-> "cancelled", count |-> 0, dbg |-> <<>>]
+  LET r == BlockPass(prog, [g |-> G0, cancelled |-> FALSE, ev |-> <<>>], cfg) IN
+  IF r.G.cancelled THEN [outcome |-> "cancelled", out |-> prog, status |-> "cancelled", count |-> 0, dbg |-> <<>>, ev |-> r.G.ev]
   ELSE IF r.G.g.status = "mod"
   THEN LET body == r.n.c[1].c
            withPrologue == InsertAt(body, DirectivePrefixLen(body), PrologueMarker)
        IN [outcome |-> "ok", status |-> "modified", count |-> r.G.g.cnt, dbg |-> r.G.g.dbg,
+           ev |-> Append(r.G.ev, <<"prologue", 2, 0, "">>),
            out |-> [r.n EXCEPT !.c = <<[r.n.c[1] EXCEPT !.c = withPrologue]>> \o Tail(r.n.c)]]
-  ELSE [outcome |-> "ok", out |-> prog, status |-> "notmodified", count |-> 0, dbg |-> <<>>]
+  ELSE [outcome |-> "ok", out |-> prog, status |-> "notmodified", count |-> 0, dbg |-> <<>>, ev |-> r.G.ev]
 
 -----------------------------------------------------------------------------
 (* Shape of a tree for conformance: no ids / positions, parentheses, empty statements and the    *)
